@@ -76,3 +76,45 @@ def run(ctx, rep):
     for p, md in zip(extra, dm):
         rep.case(("dec+", tuple(p)), "decode-trailing")
         F.cmp_res(rep, "v2-decode-trailing", {"packet": bytes(p).hex()}, F.v2_decode(p), md)
+    # ---- on the wire, retransmissions included: LAN.send against the reference appliance that leaves the first 1..2 copies of the
+    # request unanswered; EVERY packet the client writes must be decoded by the reference to the same frame and device id
+    import acresp as A
+    import refpeer
+    import simnet
+    for version in (2, 3):
+        for drop in (1, 2):
+            for n in ([0, 7, 16, 40] if not ctx.deep else [0, 1, 7, 15, 16, 17, 40, 100, 255]):
+                frame, did = rbytes(rng, n), rng.choice([1, 123456, 2 ** 48 - 1])
+                dev = refpeer.RefDevice(ctx.model, rng, version=version, device_id=did)
+                reply = A.mk_frame(A.state_body(rng, n=24))
+                dev.on_frame = lambda f, reply=reply: [reply]
+                seen = {"n": 0}
+
+                def fault(conn, view, seen=seen, drop=drop):
+                    if view[0] in ("data", "undecodable"):
+                        seen["n"] += 1
+                        if seen["n"] <= drop:
+                            return []
+                    return None
+                dev.fault = fault
+                net = simnet.Net(responder=dev)
+                L = simnet.install(net, rnd=lambda k: bytes(rng.randrange(256) for _ in range(k)))
+                lan = L.LAN("10.0.0.1", 6444, did)
+                code, val = 0, None
+                try:
+                    if version == 3:
+                        net.run(lan.authenticate(bytes(dev.token), bytes(dev.key)))
+                    val = net.run(lan.send(bytes(frame)))
+                except BaseException as e:  # noqa: BLE001
+                    from common import exn_code
+                    code, val = exn_code(e), e
+                net.close()
+                views = [v for vs in dev.views.values() for v in vs if v[0] != "hs"]
+                rep.case(("retx", version, drop, tuple(frame), did), f"retransmission-v{version}")
+                inp = {"version": version, "unanswered_copies": drop, "frame": bytes(frame).hex(), "device_id": did}
+                bad = [v for v in views if v[0] != "data" or v[3] != frame or v[2] != did]
+                if code != 0 or len(views) != drop + 1:
+                    rep.fail("oracle", "exchange-with-retransmission-failed", inp, {"status": code, "error": repr(val)[:120], "packets_written": len(views)})
+                elif bad:
+                    rep.fail("oracle", "retransmitted-packet-not-the-frame", inp,
+                             {"packet_index": views.index(bad[0]), "reference_reads": [bad[0][0]] + [bytes(x).hex() if isinstance(x, list) else x for x in bad[0][1:]]})
